@@ -68,12 +68,23 @@ static void end(void) {
 int main(int argc, char** argv) {
   for (int a = 1; a < argc; ++a) {
     const uint64_t n = strtoull(argv[a], 0, 10);
-    for (int t = 0; t < 2; ++t) {
-      begin(t ? "module NTT120" : "module FFT64", n);
-      MODULE* m = new_module_info(n, t ? NTT120 : FFT64);
-      delete_module_info(m);
-      end();
+    // every CPU-feature configuration of the dispatch (hook mask: 0 all features, 1 no avx2, 2 no fma, 0xF generic): what new_* builds
+    // under a configuration, delete_* must release under the same one; two objects of a kind alive together, deleted in creation order
+    static const uint32_t masks[4] = {0, 1, 2, 0xF};
+    for (int mk = 0; mk < 4; ++mk) {
+      spqlios_verif_set_cpu_mask(masks[mk]);
+      for (int t = 0; t < 2; ++t) {
+        char what[64];
+        snprintf(what, sizeof what, "module %s, cpu mask %u", t ? "NTT120" : "FFT64", masks[mk]);
+        begin(what, n);
+        MODULE* m = new_module_info(n, t ? NTT120 : FFT64);
+        MODULE* m2 = new_module_info(n, t ? NTT120 : FFT64);
+        delete_module_info(m);
+        delete_module_info(m2);
+        end();
+      }
     }
+    spqlios_verif_set_cpu_mask(0);
     MODULE* mod = new_module_info(n, FFT64);
     begin("vec_znx_dft / vec_znx_big / svp_ppol / vmp_pmat", n);
     VEC_ZNX_DFT* d = new_vec_znx_dft(mod, 3);
@@ -89,7 +100,11 @@ int main(int argc, char** argv) {
     q120_mat1col_product_baa_precomp* pa = q120_new_vec_mat1col_product_baa_precomp();
     q120_mat1col_product_bbb_precomp* pb = q120_new_vec_mat1col_product_bbb_precomp();
     q120_mat1col_product_bbc_precomp* pc = q120_new_vec_mat1col_product_bbc_precomp();
+    q120_mat1col_product_baa_precomp* pa2 = q120_new_vec_mat1col_product_baa_precomp();
+    q120_mat1col_product_bbb_precomp* pb2 = q120_new_vec_mat1col_product_bbb_precomp();
+    q120_mat1col_product_bbc_precomp* pc2 = q120_new_vec_mat1col_product_bbc_precomp();
     q120_delete_vec_mat1col_product_bbc_precomp(pc); q120_delete_vec_mat1col_product_bbb_precomp(pb); q120_delete_vec_mat1col_product_baa_precomp(pa);
+    q120_delete_vec_mat1col_product_bbc_precomp(pc2); q120_delete_vec_mat1col_product_bbb_precomp(pb2); q120_delete_vec_mat1col_product_baa_precomp(pa2);
     q120_del_intt_bb_precomp(p2); q120_del_ntt_bb_precomp(p1);
     end();
     const uint32_t m = (uint32_t)(n / 2 ? n / 2 : 1);
